@@ -1,6 +1,6 @@
 (** C29 — Redis gateway commands follow Redis semantics. *)
 From Coq Require Import List NArith ZArith String.
-From NoKV Require Import Base.Bytes Model.Resp Model.Redis Spec.RedisSpec Proofs.RedisProofs.
+From NoKV Require Import Base.Bytes Model.Resp Model.Redis Spec.RedisSpec Spec.RedisMsSpec Proofs.RedisProofs.
 Import ListNotations.
 Local Open Scope N_scope.
 
@@ -70,3 +70,21 @@ Theorem C29_empty_key_refuted :
   /\ keys_nonempty w_empty_key = false.
 Proof. exact empty_key_refuted. Qed.
 Print Assumptions C29_empty_key_refuted.
+
+(** Known finding C29-F2: against the millisecond-precise reference
+    (Spec/RedisMsSpec.v) the store's whole-second expiry is visible. A key set
+    with PXAT 300 ms ahead is born expired ... *)
+Theorem C29_ms_deadline_refuted :
+  snd (run current [] (to_seconds w_pxat_ms)) = [RSimple n_OK; RNil]
+  /\ snd (spec_run_ms 0 empty_map w_pxat_ms) = [RSimple n_OK; RBulk (of_string "41"%string)]
+  /\ within_granularity w_pxat_ms (map encode_reply [RSimple n_OK; RNil]) = true.
+Proof. exact ms_granularity_refuted. Qed.
+Print Assumptions C29_ms_deadline_refuted.
+
+(** ... and a key set with PX 1 outlives its deadline until the next full second. *)
+Theorem C29_ms_deadline_late_refuted :
+  snd (run current [] (to_seconds w_px_late)) = [RSimple n_OK; RBulk (of_string "41"%string)]
+  /\ snd (spec_run_ms 0 empty_map w_px_late) = [RSimple n_OK; RNil]
+  /\ within_granularity w_px_late (map encode_reply [RSimple n_OK; RBulk (of_string "41"%string)]) = true.
+Proof. exact ms_granularity_late_refuted. Qed.
+Print Assumptions C29_ms_deadline_late_refuted.
